@@ -173,10 +173,20 @@ def cadence(chk, rng, q):
     exprs, recs = [], []
     per = 4 if q else 30
     for name in TARGETS:
+        # the two periodic settings of a routine are cycled through co-prime, nested and equal pairs (a documented update point that
+        # is not a multiple of the other period must still be an update point)
+        pairs, state = [(2, 3), (3, 2), (2, 1), (1, 3), (1, 1), (3, 3)], {"k": 0}
+
+        def gen(g, name_, quick_):
+            cfg = gen_learning(g, name_, quick_)
+            cfg["uf"] = pairs[state["k"] % len(pairs)][0] if name_ in ("nature_dqn", "ddqn", "per") else cfg["uf"]
+            return cfg
+
         def draw(g):
-            return {"tuf": int(g.choice([1, 2, 3])), "pd": int(g.choice([1, 2, 3])), "tnd": int(g.choice([1, 2, 3])), "td": int(g.choice([1, 2, 3])),
-                    "tau": float(g.choice([0.25, 0.125, 0.75, 1.0]))}
-        rs = lc.collect(chk, rng, [name], per, quick=True, extra=draw, gen=gen_learning)
+            a, b = pairs[state["k"] % len(pairs)]
+            state["k"] += 1
+            return {"tuf": b, "pd": a, "tnd": b, "td": b, "tau": float(g.choice([0.25, 0.125, 0.75, 1.0]))}
+        rs = lc.collect(chk, rng, [name], per, quick=True, extra=draw, gen=gen)
         for r in rs:
             res, cfg, case, extra = r["res"], r["cfg"], lc.case_of(r), r["extra"]
             case.update({k: extra[k] for k in extra})
